@@ -546,6 +546,84 @@ def gen_cm(rng):
                 lambda_from_center=rng.random() < 0.3, cell_numbers=cells)
 
 
+def only_dir(rng, d, v):
+    """A per-direction option carried by direction d only: tuple / list / dict with Nones."""
+    per = [NONE, NONE, NONE]
+    per[d] = v
+    if rng.random() < 0.5:
+        return ('dict', per[0], per[1], per[2])
+    return seq(per, rng.choice(['list', 'tuple']))
+
+
+def gen_cm_onedir(rng, natural=False):
+    """construct_mesh with x and y agreeing in centre, survey domain and buffer
+    properties, and exactly ONE direction-specific option given for exactly ONE
+    direction (x only / y only / z only), None for the others.  Any reuse of one
+    direction's gridding for another is exposed.  natural=True: default-like
+    stretching and cell numbers (searcher only; too slow on exact rationals)."""
+    freq = rng.choice([0.5, 1.0, 2.0, 4.0]) * (-1 if rng.random() < 0.2 else 1)
+    mapping = rng.choice(MAPS)
+    nprops = rng.choice([0, 1, 2, 3, 4, 7])
+    props = [prop_value(rng, mapping) for _ in range(max(nprops, 1))]
+    if nprops == 7:
+        props[3], props[4] = props[1], props[2]          # x and y buffers agree
+    sd0 = skin_depths(dict(frequency=freq, properties=props, mapping=mapping))[0]
+    u = max(1.0, float(round(sd0 / 3)))
+    cxy = float(rng.randint(-20, 20) * 16)
+    center = [cxy, cxy, float(rng.randint(-20, 20) * 16)]
+    a, b = rng.randint(1, 3), rng.randint(1, 3)
+    dxy = (cxy - a * u, cxy + b * u)
+    dz = (center[2] - rng.randint(1, 3) * u, center[2] + rng.randint(1, 3) * u)
+    if rng.random() < 0.3:
+        center[2], dz = cxy, dxy
+        domain = pair_val(rng, dxy)                       # one pair for all directions
+    else:
+        pv = pair_val(rng, dxy)
+        domain = spread(rng, [pv, pv, pair_val(rng, dz)], allow_all=False)
+    d = rng.choice([0, 1, 1, 1, 2])
+    which = rng.choice(['vector', 'vector', 'stretching', 'stretching', 'coe', 'limits', 'pps', 'distance'])
+    opts = dict(vector=NONE, distance=NONE, stretching=NONE, limits=NONE, pps=NONE, coe=NONE)
+    base_lim = rng.random() < 0.7
+    if which == 'vector':
+        n = rng.randint(3, 6)
+        vv = [center[d] - rng.randint(1, 2) * u - u / 4]
+        for _ in range(n):
+            vv.append(vv[-1] + rng.choice([u / 2, u, 3 * u / 4, 5 * u / 4]))
+        opts['vector'] = only_dir(rng, d, ('arr', vv))
+    elif which == 'stretching':
+        opts['stretching'] = only_dir(rng, d, pair_val(rng, (1.0, 1 + rng.randint(4, 40) / 1024)))
+    elif which == 'coe':
+        opts['coe'] = only_dir(rng, d, ('bool', rng.random() < 0.7 and False))
+    elif which == 'limits':
+        opts['limits'] = only_dir(rng, d, ('num', rng.choice([u / 2, 3 * u / 4, 2 * u, u + 3])))
+        base_lim = False
+    elif which == 'pps':
+        opts['pps'] = only_dir(rng, d, ('num', rng.choice([2.0, 4.0, 5.0])))
+        base_lim = False
+    else:
+        opts['distance'] = only_dir(rng, d, pair_val(rng, (rng.randint(1, 4) * u, rng.randint(1, 4) * u)))
+    if which != 'limits' and which != 'pps' and base_lim:
+        opts['limits'] = ('num', u)
+    if which != 'coe' and rng.random() < 0.6:
+        opts['coe'] = ('bool', rng.random() < 0.5)
+    if natural:
+        cells = [int(x) for x in __import__('emg3d').meshes.good_mg_cell_nr(1024, 5, rng.choice([2, 3]))]
+        lam, mb = rng.choice([1.0, 0.5, 0.25]), rng.choice([100000.0, 20 * u, 50 * u])
+    else:
+        # marginal buffer: the buffer stretching has to leave 1.0 in the
+        # directions that keep the default stretching [1, 1.5]
+        m = rng.randint(1, 4)
+        mb = m * u * (1 + rng.choice([1 / 64, 1 / 32, 1 / 16, 1 / 8]))
+        lam = 1.0
+        lo_n = rng.choice([8, 10, 12])
+        cells = list(range(lo_n, lo_n + 2 * rng.randint(5, 9), 2))
+    return dict(frequency=freq, mapping=mapping, properties=props, scalar_props=(nprops == 0),
+                center=center, domain=domain, vector=opts['vector'], distance=opts['distance'],
+                stretching=opts['stretching'], limits=opts['limits'], pps=opts['pps'], coe=opts['coe'],
+                seasurface=None, lambda_factor=lam, max_buffer=float(mb),
+                lambda_from_center=False, cell_numbers=cells, onedir=f"{which}:{'xyz'[d]}")
+
+
 def run_cm(case):
     import emg3d
     from emg3d import meshes
@@ -565,6 +643,20 @@ def run_cm(case):
         cost[0] += 1 if float(stretching) == 1.0 else int(nx) ** 2
         return orig_stretch(edges, widths, stretching, nx, *a, **k)
     meshes._stretch = counting
+    oaw_calls = []
+    orig_oaw = meshes.origin_and_widths
+
+    def recording(*a, **k):
+        import inspect
+        try:
+            b = inspect.signature(orig_oaw).bind(*a, **k)
+            d = dict(b.arguments)
+            d.update(d.pop('kwargs', {}))
+            oaw_calls.append(norm_call(d, case['mapping']))
+        except Exception as e:
+            oaw_calls.append(('unreadable', repr(e)))
+        return orig_oaw(*a, **k)
+    meshes.origin_and_widths = recording
     with warnings.catch_warnings(record=True) as ws, record_brentq(calls):
         warnings.simplefilter('always')
         try:
@@ -581,10 +673,48 @@ def run_cm(case):
             res = {'kind': 97, 'msg': repr(e)}
         finally:
             meshes._stretch = orig_stretch
+            meshes.origin_and_widths = orig_oaw
     res['warns'] = warn_codes(ws)
     res['brentq'] = calls
     res['cost'] = cost[0]
+    res['oaw_calls'] = oaw_calls
     return res
+
+
+def norm_call(d, mapping):
+    """Canonical form of the arguments of one origin_and_widths call (exact
+    Fractions), in the layout of GriddingExec.out_oawin."""
+    F = V.frac
+
+    def fl(x):
+        return [F(float(v)) for v in np.atleast_1d(np.asarray(x, dtype=float)).ravel()]
+    props = fl(d['properties'])
+    sds = [F(x) for x in skin_depths(dict(frequency=d['frequency'], properties=[float(p) for p in props],
+                                          mapping=d.get('mapping', 'Resistivity')))]
+    st = d.get('stretching', [1.0, 1.5])
+    coe = d.get('center_on_edge', 'notset')
+    vec = d.get('vector')
+    sea = d.get('seasurface')
+    lim = d.get('min_width_limits')
+    return (1, sds,
+            fl(d['center']) + fl(st) + fl(d.get('min_width_pps', 3.0))
+            + fl(d.get('lambda_factor', 1.0)) + fl(d.get('max_buffer', 100000)),
+            [] if d.get('domain') is None else fl(d['domain']),
+            [] if d.get('distance') is None else fl(d['distance']),
+            (0, []) if vec is None else (1, fl(vec)),
+            [] if sea is None else fl(sea),
+            [] if lim is None else fl(lim),
+            (-1 if isinstance(coe, str) else int(bool(coe)), bool(d.get('lambda_from_center', False)),
+             bool(d.get('raise_error', True))),
+            [int(x) for x in d.get('cell_numbers', [])])
+
+
+def norm_model_input(t):
+    """Parsed out_oawin value -> same canonical form."""
+    flag, sds, nums, dom, dist, (vf, vec), sea, lim, (coe, lfc, rerr), cells = t
+    f = lambda l: [fr(p) for p in l]
+    return (flag, f(sds), f(nums), f(dom), f(dist), (vf, f(vec)), f(sea), f(lim),
+            (coe, bool(lfc), bool(rerr)), [int(x) for x in cells])
 
 
 def cm_eval_term(case, impl):
@@ -606,7 +736,8 @@ def cm_eval_term(case, impl):
             f"{V.coq_bool(case['lambda_from_center'])} {zlist(case['cell_numbers'])})")
     return (f"Eval vm_compute in out_cm (construct_mesh qleb qfloor "
             f"(brentq_tab {brentq_term(impl['brentq'])}) (fun _ => {permt}) {q(TWOPI)} "
-            f"(skin_tab {tab}) {cmin}).")
+            f"(skin_tab {tab}) {cmin}).\n"
+            f"Eval vm_compute in out_cm_inputs (cm_inputs (skin_tab {tab}) {cmin}).")
 
 
 def dir_value(v, d, kw):
@@ -631,9 +762,46 @@ def dir_value(v, d, kw):
     return None
 
 
-def compare_cm(case, impl, ans, dis):
+def compare_calls(case, impl, code, inputs, dis):
+    """Per direction: the arguments the model routes to origin_and_widths must
+    have been handed to an origin_and_widths call of the implementation (and no
+    call may receive anything else).  A direction whose arguments are identical
+    to another one's may legitimately share its call."""
+    calls = impl['oaw_calls']
+    if any(c[0] == 'unreadable' for c in calls):
+        dis.append({'what': 'construct_mesh: origin_and_widths call not readable', 'case': case,
+                    'impl': str(calls[:1])})
+        return False
+    expected = {10: 1, 11: 2}.get(code, 3)
+    model = [norm_model_input(t) for t in inputs][:expected]
+    if any(m[0] != 1 for m in model):
+        return True                                    # argument form outside the model
+    for d, m in enumerate(model):
+        if m not in calls:
+            near = calls[min(d, len(calls) - 1)] if calls else None
+            diff = [k for k in range(len(m)) if near is None or near[k] != m[k]]
+            dis.append({'what': f'construct_mesh: no origin_and_widths call received the arguments '
+                                f'routed to direction {"xyz"[d]}',
+                        'case': case, 'impl': {'calls': len(calls), 'differing_fields': diff},
+                        'model': {'calls': expected}})
+            return False
+    for k, c in enumerate(calls):
+        if c not in model:
+            dis.append({'what': f'construct_mesh: origin_and_widths call {k} received arguments of no direction',
+                        'case': case, 'impl': {'calls': len(calls)}, 'model': {'calls': expected}})
+            return False
+    if len(calls) > expected:
+        dis.append({'what': 'construct_mesh: more origin_and_widths calls than directions', 'case': case,
+                    'impl': len(calls), 'model': expected})
+        return False
+    return True
+
+
+def compare_cm(case, impl, ans, dis, inputs=None):
     warns, code, org, hx, hy, hz = ans
     mk = 10 if code in (10, 11, 12) else code
+    if inputs is not None and impl['kind'] != 97 and not compare_calls(case, impl, code, inputs, dis):
+        return False
     if any(c[0] == 'unreadable' for c in impl['brentq']):
         dis.append({'what': 'construct_mesh: brentq closure no longer readable', 'case': case})
         return False
@@ -788,12 +956,14 @@ def correspondence(ctx):
     texts = [(f"c16_oaw_{g}", COQ_HEADER + '\n'.join(oaw_eval_term(cases[k], impls[k]) for k in grp) + '\n')
              for g, grp in enumerate(groups)]
     # construct_mesh
-    n_cm = 48 if ctx.thorough else 16
+    n_cm = 64 if ctx.thorough else 24
     cmc, cmi = [], []
+    n_one = n_cm // 2                  # half of the stream: one option in one direction only
     while len(cmc) < n_cm:
-        c = gen_cm(rng)
+        one = len(cmc) < n_one
+        c = gen_cm_onedir(rng) if one else gen_cm(rng)
         im = run_cm(c)
-        if im['cost'] > cap:
+        if im['cost'] > (4 * cap if one else cap):
             skipped += 1
             continue
         cmc.append(c)
@@ -823,8 +993,11 @@ def correspondence(ctx):
         if rc != 0:
             dis.append({'what': 'construct_mesh model does not evaluate', 'log': out[-1500:]})
             continue
-        for c, im, a in zip(cmc[k:k + per_cm], cmi[k:k + per_cm], V.eval_answers(out)):
-            compare_cm(c, im, parse_ans(a), dis)
+        answers = V.eval_answers(out)
+        for c, im, a, ai in zip(cmc[k:k + per_cm], cmi[k:k + per_cm], answers[0::2], answers[1::2]):
+            compare_cm(c, im, parse_ans(a), dis, inputs=parse_ans(ai))
+            if c.get('onedir'):
+                cmh['onedir/' + c['onedir']] = cmh.get('onedir/' + c['onedir'], 0) + 1
             key = 'kind%d/props%d' % (im['kind'], 0 if c['scalar_props'] else len(c['properties']))
             cmh[key] = cmh.get(key, 0) + 1
             for nm in ('domain', 'vector', 'distance', 'stretching', 'limits', 'pps', 'coe'):
@@ -944,6 +1117,116 @@ def check_oaw_case(case):
     return post_oaw(case, out, warn_codes(ws))
 
 
+# ---------------------------------------- construct_mesh: postconditions per direction
+def doc_dirs(v, kw):
+    """Expand an argument to (x, y, z) the way the construct_mesh docstring
+    describes (independent of the model): dict / 3-sequence per direction with
+    None = not given, anything else for all directions."""
+    if v[0] == 'dict':
+        return [v[1], v[2], v[3]]
+    if v[0] == 'seq' and len(v[1]) == 3:
+        return list(v[1])
+    return [v, v, v]
+
+
+def doc_props(props):
+    p = list(props)
+    if len(p) == 3:
+        return [p[0], p[2], p[2]], [p[0], p[2], p[2]], [p[0], p[1], p[2]]
+    if len(p) == 4:
+        return [p[0], p[1], p[1]], [p[0], p[1], p[1]], [p[0], p[2], p[3]]
+    if len(p) == 7:
+        return [p[0], p[1], p[2]], [p[0], p[3], p[4]], [p[0], p[5], p[6]]
+    return p, p, p
+
+
+def cm_dir_cases(case):
+    """Three origin_and_widths-style parameter dicts, one per direction."""
+    pr = doc_props(case['properties'])
+    exp = {k: doc_dirs(case[k], k) for k in ('domain', 'vector', 'distance', 'stretching', 'limits',
+                                              'pps', 'coe')}
+    out = []
+    for d in range(3):
+        pv = lambda k: val_py(exp[k][d])
+        dom, vec, dist, st, lim, pps, coe = (pv(k) for k in ('domain', 'vector', 'distance', 'stretching',
+                                                             'limits', 'pps', 'coe'))
+        out.append(dict(frequency=case['frequency'], mapping=case['mapping'], properties=pr[d],
+                        center=case['center'][d],
+                        domain=None if dom is None else [float(x) for x in dom],
+                        distance=None if dist is None else [float(x) for x in dist],
+                        vector=None if vec is None else [float(x) for x in vec],
+                        seasurface=case['seasurface'] if d == 2 else None,
+                        stretching=[1.0, 1.5] if st is None else [float(x) for x in st],
+                        limits=lim if lim is None or isinstance(lim, float) else [float(x) for x in lim],
+                        pps=3.0 if pps is None else float(pps),
+                        lambda_factor=case['lambda_factor'], max_buffer=case['max_buffer'],
+                        lambda_from_center=case['lambda_from_center'],
+                        cell_numbers=case['cell_numbers'], center_on_edge=coe, raise_error=False))
+    return out
+
+
+def post_min_width(dc, hx):
+    """A fixed minimum width (scalar limit, no vector, no sea surface) is the smallest width."""
+    lim = dc['limits']
+    if dc['vector'] is None and dc['seasurface'] is None and isinstance(lim, float):
+        if abs(float(np.min(hx)) - lim) > 1e-9 * lim:
+            return [f"smallest width {float(np.min(hx))!r} is not the fixed min_width_limits {lim!r}"]
+    return []
+
+
+def check_cm_case(case):
+    """Postconditions of every direction of one construct_mesh call."""
+    import emg3d
+    kw = dict(lambda_factor=case['lambda_factor'], max_buffer=case['max_buffer'],
+              lambda_from_center=case['lambda_from_center'], mapping=case['mapping'],
+              cell_numbers=list(case['cell_numbers']))
+    for name, key in (('distance', 'distance'), ('stretching', 'stretching'),
+                      ('min_width_limits', 'limits'), ('min_width_pps', 'pps'),
+                      ('center_on_edge', 'coe')):
+        if case[key] != NONE:
+            kw[name] = val_py(case[key])
+    props = case['properties'][0] if case['scalar_props'] else list(case['properties'])
+    with warnings.catch_warnings(record=True) as ws:
+        warnings.simplefilter('always')
+        try:
+            m = emg3d.construct_mesh(case['frequency'], props, tuple(case['center']),
+                                     val_py(case['domain']), val_py(case['vector']),
+                                     case['seasurface'], **kw)
+        except (ValueError, RuntimeError):
+            return []                                    # failed loudly
+    wc = warn_codes(ws)
+    bad = []
+    for d, dc in enumerate(cm_dir_cases(case)):
+        if dc['domain'] is None and dc['distance'] is None and dc['vector'] is None:
+            continue
+        b = post_oaw(dc, (m.origin[d], m.h[d]), wc) + post_min_width(dc, np.asarray(m.h[d]))
+        bad += [f"direction {'xyz'[d]}: {x}" for x in b]
+    return bad
+
+
+def _jsonable_cm(case):
+    return {k: (list(v) if isinstance(v, tuple) else v) for k, v in case.items()}
+
+
+def cm_from_json(case):
+    """Val tuples back from their JSON (list) form."""
+    def val(v):
+        if isinstance(v, (list, tuple)) and v and isinstance(v[0], str):
+            t = v[0]
+            if t == 'seq':
+                return ('seq', [val(x) for x in v[1]], v[2])
+            if t == 'dict':
+                return ('dict', val(v[1]), val(v[2]), val(v[3]))
+            if t == 'arr':
+                return ('arr', [float(x) for x in v[1]])
+            return tuple(v)
+        return v
+    c = dict(case)
+    for k in ('domain', 'vector', 'distance', 'stretching', 'limits', 'pps', 'coe'):
+        c[k] = val(c[k])
+    return c
+
+
 def perturb(rng, case):
     """Leave the dyadic lattice: generic floats for the searcher."""
     c = dict(case)
@@ -976,6 +1259,29 @@ def search(ctx, broken):
                 hits.append({'signature': 'origin_and_widths: ' + bad[0].split(' [')[0][:60],
                              'fn': 'origin_and_widths', 'case': d['case'], 'violated': bad})
                 return hits
+    for b in broken or []:
+        d = b.get('detail')
+        if isinstance(d, dict) and isinstance(d.get('case'), dict) and 'scalar_props' in d['case']:
+            bad = check_cm_case(d['case'])
+            if bad:
+                hits.append({'signature': 'construct_mesh: ' + bad[0].split(' [')[0][:70],
+                             'fn': 'construct_mesh', 'case': _jsonable_cm(d['case']), 'violated': bad})
+                return hits
+    # construct_mesh: one option in one direction only (x/y agree otherwise), and the general stream
+    n_cm = 300 if ctx.thorough else 120
+    for k in range(n_cm):
+        case = gen_cm_onedir(rng, natural=(k % 3 != 0)) if k % 4 != 3 else gen_cm(rng)
+        try:
+            bad = check_cm_case(case)
+        except Exception as e:
+            ctx.notes.append(f"searcher: exception {e!r} on a generated construct_mesh case")
+            continue
+        if bad:
+            hits.append({'signature': 'construct_mesh: ' + bad[0].split(' [')[0][:70],
+                         'fn': 'construct_mesh', 'case': _jsonable_cm(case), 'violated': bad})
+            return hits
+    ctx.notes.append(f"searcher: per-direction postconditions evaluated on {n_cm} construct_mesh calls "
+                     f"(3/4 with one option given for one direction only)")
     n = 600 if ctx.thorough else 250
     tried = returned = 0
     for k in range(n):
@@ -1002,4 +1308,6 @@ def replay(ctx, payload):
     fi = payload.get('failing_input')
     if not fi or 'case' not in fi:
         return False
+    if fi.get('fn') == 'construct_mesh':
+        return not check_cm_case(cm_from_json(fi['case']))
     return not check_oaw_case(fi['case'])
